@@ -13,6 +13,7 @@ import Pysmi.Model.Lexer
 import Pysmi.Model.LexCfg
 import Pysmi.Generated.LexTables
 import Pysmi.Model.LR
+import Pysmi.Model.PyStr
 /-!
 Line-protocol driver: one JSON object per input line, one JSON value per output line.
 Imports only the import-free model files and `Lean.Data.Json`.
@@ -558,6 +559,35 @@ def opLex (j : Json) : Except String Json := do
   | .error .outOfFuel => return Json.mkObj [("error", .str "fuel")]
 end Lx
 
+/-! ### op: text (C15) -/
+namespace Tx
+open Pysmi.PyStr
+
+def cps (s : List Char) : Json := Json.arr (s.map (fun c => (c.toNat : Json))).toArray
+
+def jEval (r : Except EvalErr (List Char)) : Json :=
+  match r with
+  | .ok v => Json.mkObj [("ok", cps v)]
+  | .error .syntaxError => Json.mkObj [("error", .str "syntax")]
+  | .error .namedEscape => Json.mkObj [("error", .str "named-escape")]
+
+def opText (j : Json) : Except String Json := do
+  let fn ← (← j.getObjVal? "fn").getStr?
+  let s ← Lx.textOf (← j.getObjVal? "s")
+  match fn with
+  | "normalize" => return cps (normalize s)
+  | "dropWs" => return cps (dropWs s)
+  | "pyblock" => return cps (pyblock s)
+  | "pyline" => return cps (pyline s)
+  | "blockValue" => return jEval (blockValue s)
+  | "lineValue" => return jEval (lineValue s)
+  | "gated" =>
+    let on ← (← j.getObjVal? "on").getBool?
+    let present ← (← j.getObjVal? "present").getBool?
+    return (match gated on (if present then some s else none) with | some t => cps t | none => Json.null)
+  | _ => throw s!"unknown text fn {fn}"
+end Tx
+
 /-! ### ops: tables (load a parser export) / parse -/
 namespace Pr
 open Pysmi.Py Pysmi.LR
@@ -704,6 +734,7 @@ def handle (j : Json) : Except String Json := do
   | "defval" => Sx.opDefval j
   | "struct" => St.opStruct j
   | "lex" => Lx.opLex j
+  | "text" => Tx.opText j
   | "put2" => Wr.opPut2 j
   | _ => throw s!"unknown op {op}"
 
